@@ -186,6 +186,16 @@ from props.c04 import eval_closed           # noqa: E402
 CONTR_OOFF, CONTR_OAOFF = 1000, 100         # wire / atom offsets of the operator store
 CONTR_IMPORTS = ("From Coq Require Import List Arith. From PTN Require Import TTN.Store Contr.Blocks TTNDO.Contr. "
                  "From PTN Require Tree.RTree TTNDO.Sym. Import ListNotations.")
+# [value] the structural hypotheses of the value theorem C16_trace_value (TTNDO/Value.v): the network of the store program
+# of from_ttns against the state built as a store program over the same tree and dimensions (one atom per node, legs
+# (parent, children, open)), wire / atom offsets of the conjugate copy as in C04
+VALUE_WOFF, VALUE_AOFF = 1000, 100
+VALUE_IMPORTS = ("From Coq Require Import List Arith. From PTN Require TTNDO.Value Tree.RTree. Import ListNotations.")
+
+
+def value_expr(case, ob):
+    args = f"{coq_fun(ob['bond'])} {coq_fun(ob['phys'])} {coq_nat(case['k'])} {_coq_rtree_q(ob['rtree'])}"
+    return f"Value.value_case {args} {coq_nat(VALUE_WOFF)} {coq_nat(VALUE_AOFF)}"
 
 
 class _NodeIndexIds:
@@ -264,6 +274,15 @@ def contr_compare(prop, case, ob, mo):
     if bad:
         prop._contr_fail.append(f"seed {case['seed']} tree {case['parents']} k={case['k']}: {', '.join(bad)} = false")
         return f"model: per-instance checker(s) {bad} evaluate to false (hypotheses of C16_trace_closed / C16_expectation_closed, expected closed diagram)"
+    # [value] the structural hypotheses of C16_trace_value (the value-level premises root = eye(k), zero padding,
+    # ket = state tensor, bra = its conjugate were compared exactly by the build comparison before this point)
+    if "vhyp" in mo:
+        prop._inst[0] += 1
+        prop._inst[1] += int(mo["vhyp"] is True)
+        if mo["vhyp"] is not True:
+            prop._contr_fail.append(f"seed {case['seed']} tree {case['parents']} k={case['k']}: value_case = false")
+            return ("model: value_case evaluates to false (structural hypotheses of C16_trace_value: the network of from_ttns is not the "
+                    "mirrored image of the state's tree with one atom per node and the state's leg dimensions)")
     tables = {a: (co["datoms"][a], list(ws)) for a, ws in mo["store"][4]}
     tables.update({a: (co["oatoms"][a - CONTR_OAOFF], list(ws)) for a, ws in obs_o[4]})
     for what, summ, key in (("trace()", sums[0], "trace"), ("ttno_expectation_value()", sums[1], "expect")):
@@ -344,13 +363,32 @@ class C16(Prop):
               "the hypotheses ttndo_wfb / ttndo_wf3b of the two diagram theorems, and the diagrams the two programs return are the expected ones "
               "with every atom and every bound wire exactly once (ttndo_trace_ok / ttndo_expect_ok). That from_ttns satisfies the hypotheses for "
               "EVERY tree is not proved (per instance only)"),
+        ("O", "trace() = <psi|psi> as ONE statement (C16_trace_value, model TTNDO/Value.v, proofs TTNDO/ValueProofs.v): for every well-formed state "
+              "store s with one open leg per node (arbitrary node diagrams), every tree, every root bond dimension k >= 1, every commutative "
+              "semiring and every pair of atom tables, if d is structurally the network from_ttns builds from s (ttndo_of: mirrored image of the "
+              "state's tree, one atom per node, the state's leg dimensions, k on the root's two legs) then trace_ttndo on d and scalar_product "
+              "(= contract_two_ttns s (conj_store s), the <psi|psi> diagram of C04) both succeed with closed diagrams of EQUAL VALUE (gvalue of "
+              "C04) -- under the named build contracts build_contracts: (i) every ket atom below the state's root holds the state's tensor in "
+              "logical leg order and every bra atom what C04's conjugate copy holds, (ii) the root's ket / bra atom is that tensor in slice 0 of a "
+              "new leading leg of length k and zero in every other slice, (iii) the artificial root atom is eye(k).reshape(k,k,1); entry by entry "
+              "within the dimensions. Proof: C04's fused form of <psi|psi> at the root, wire-by-wire renaming of sums (C16_sum_rename), "
+              "delta / zero-padding elimination of the three root wires. Executable forms proved sound: C16_trace_value_checked, "
+              "C16_ttndo_ofb_sound, C16_build_contractsb_sound (contracts over Z on every in-range index)"),
+        ("I", "per explored build case (vm_compute): value_case = all structural hypotheses of C16_trace_value (value_hyp: wfsb of both stores, one open "
+              "leg per node, ttndo_ofb) hold for the store program of from_ttns against the state built as a store program over the same tree and "
+              "dimensions; the three build contracts are exactly what the build comparison checks on the arrays of the same case (root = eye(k), "
+              "non-zero slices = [True, False, ...], ket tensor = state tensor resp. slice 0, bra tensor = its conjugate; exact)"),
         ("V", "value level: bra tensor = conj(ket tensor), root = eye(k), padded slices zero (exact, every build case); the einsum of the model's closed "
               "diagrams over the network's own stored arrays equals trace() / ttno_expectation_value() to 1e-9 relative on every build case; "
               "trace() = <psi|psi>, TTNO expectation = <psi|H|psi> (also for an operator network with its own child order), tensor-product expectation "
-              "= <psi|(x)O|psi> against an independent dense numpy oracle. 'trace = <psi|psi>' as one theorem needs diagram theorem + these value facts "
-              "+ the semantics of einsum; that composition is not a Coq theorem"),
+              "= <psi|(x)O|psi> against an independent dense numpy oracle. The value statement for trace() is the O clause above; for the TTNO and "
+              "tensor-product expectation values the corresponding value statements are not Coq theorems (diagram level + these ties only)"),
     ]
-    trusted_base = ["NumPy eye/pad/reshape/conj entry formulas (validated exactly on every build case: root = eye(k), padded slices, bra = conj(ket))",
+    trusted_base = ["NumPy eye/pad/reshape/conj entry formulas = the premises build_contracts of C16_trace_value (validated exactly on every build case: "
+                    "root = eye(k), padded slices zero, ket = state tensor, bra = conj(ket)); over an abstract semiring conjugation is not an operation: "
+                    "'bra = conj(ket)' is the statement that the network's bra atom and the conjugate copy of C04 carry the same table",
+                    "gvalue (Contr/TensorProdBridge.v) as the denotation of a glued diagram: a definition, justified by C04_gvalue_g_tensordot and by the "
+                    "einsum tie of the same diagrams against the library's numbers",
                     "dense references: util.dense_vec / dense_tp / dense_ham / dense_ttno (einsum, Kronecker products), tolerance 1e-9 relative to the operator scale",
                     "NumPy tensordot / transpose / matmul / [0] on a length-1 axis implement the diagram operations of TTNDO/Contr.v (validated per build case: "
                     "einsum of the model diagram = library value); ttndo[id] is modelled by the logical (transposed) view, as in Contr/Blocks.v"]
@@ -646,6 +684,10 @@ class C16(Prop):
         cvals = coq_eval(ctx, CONTR_IMPORTS, [contr_expr(cases[i], obs[i]) for i in cidx], shard=12, scope="nat_scope")
         where = where + [(i, "contr") for i in cidx]
         vals = list(vals) + list(cvals)
+        # [value] hypotheses of C16_trace_value on the same build cases
+        vvals = coq_eval(ctx, VALUE_IMPORTS, [value_expr(cases[i], obs[i]) for i in cidx], shard=30, scope="nat_scope")
+        where = where + [(i, "vhyp") for i in cidx]
+        vals = vals + list(vvals)
         out = [None] * len(cases)
         for (i, key), v in zip(where, vals):
             if out[i] is None:
